@@ -308,7 +308,10 @@ pub fn txs_to_csv_table(txs: &Vec<CsvTx>) -> PlainCsvTable {
             optional_cols_in_use.insert(CsvCol::SPLIT_RATIO);
         }
         if let Some(af) = &tx.affiliate {
-            if *af != Affiliate::default() {
+            // The global affiliate (a split for all affiliates) is written as a
+            // blank cell, which is also how it is read, so it does not need the
+            // column either.
+            if *af != Affiliate::default() && !af.is_global() {
                 optional_cols_in_use.insert(CsvCol::AFFILIATE);
             }
         }
@@ -388,7 +391,13 @@ pub fn txs_to_csv_table(txs: &Vec<CsvTx>) -> PlainCsvTable {
                 CsvCol::AFFILIATE => tx
                     .affiliate
                     .as_ref()
-                    .map(|v| v.name().to_string())
+                    .map(|v| {
+                        if v.is_global() {
+                            String::new()
+                        } else {
+                            v.name().to_string()
+                        }
+                    })
                     .unwrap_or_else(empty),
                 CsvCol::MEMO => tx.memo.clone().unwrap_or_else(empty),
                 _ => panic!("Invalid col {}", col),
